@@ -138,6 +138,16 @@ fn h_rev_2x3_d1() {
 fn h_rev_3x2_d0() {
     ck_reverse(&[3, 2], 6, 0);
 }
+//@ id=C16.e3.reverse_depth.rows_without_elements props=C16,C05,C09 level=bounded tier=quick budget=600 bound="shapes [2,0] and [3,0], depth 0, with map keys" desc="reversing a map whose rows have no elements (shape n x 0) still reverses its key order, exactly once: the rows exist and °map lists the keys in row order"
+#[kani::proof]
+#[kani::unwind(8)]
+fn h_reverse_rows_without_elements() {
+    let rows: usize = if kani::any() { 2 } else { 3 };
+    let mut a: Array<u8> = Array { shape: Shape(vec![rows, 0]), data: Data(Vec::new()), meta: ArrayMeta(Some(Arc::new(ArrayMetaInner { map_keys: Some(MapKeys::default()), ..Default::default() }))) };
+    a.reverse_depth(0);
+    assert!(same_usize(&a.shape.0, &[rows, 0]) && a.data.len() == 0);
+    assert!(a.meta.map_keys.as_ref().unwrap().reversed == 1);
+}
 //@ id=C05.e3.reverse_depth.empty props=C05,C09 level=bounded tier=quick budget=600 bound="shapes [0] and [2,0]" desc="reversing an array without elements changes nothing and does not panic"
 #[kani::proof]
 #[kani::unwind(10)]
